@@ -218,6 +218,10 @@ def install(rec, BB, ES, SH, GT, gpyreg):
                          scalar_ls=bool(np.ndim(ls) == 0 or np.size(ls) == 1))
             except Exception as e:
                 rec.emit("ObserverError", what="neighbors", err=repr(e), tb=traceback.format_exc()[-600:])
+            try:
+                rec.last_neighbors_X = np.array(r[0], dtype=float, copy=True)
+            except Exception:
+                rec.last_neighbors_X = None
             return r
         return w
     rec._patch(GT, "get_grid_search_neighbors", mk_neigh)
@@ -226,6 +230,7 @@ def install(rec, BB, ES, SH, GT, gpyreg):
     def mk_local(orig):
         def w(gp, current_point, function_logger, options, optim_state, iteration_history, refit_flag):
             rec.gp_ctx.append("local")
+            rec.last_neighbors_X = None
             try:
                 r = orig(gp, current_point, function_logger, options, optim_state, iteration_history, refit_flag)
             finally:
@@ -236,6 +241,11 @@ def install(rec, BB, ES, SH, GT, gpyreg):
                                    "local:" + rec.site(), specified())
                 s["refit"] = bool(refit_flag)
                 s["exit_flag"] = float(r[1])
+                # the surrogate returned is conditioned on exactly the neighbour set selected in this call (fit retries
+                # may shrink their WORKING copy of the data, never the surrogate's own training set)
+                nb = getattr(rec, "last_neighbors_X", None)
+                s["train_is_nbr"] = bool(nb is None or (np.asarray(g2.X).shape == nb.shape
+                                                         and np.array_equal(np.asarray(g2.X, dtype=float), nb)))
                 # which point was the neighbourhood centred on?  (C15: the current incumbent; the noisy search
                 # step fits a tentative GP around the point it has just evaluated)
                 cp = np.asarray(current_point, dtype=float).ravel()
@@ -311,17 +321,25 @@ def install(rec, BB, ES, SH, GT, gpyreg):
                 nvars = int(np.atleast_2d(xi).shape[1])
                 t = fc_true + 1
                 sb = np.sqrt(0.2 * 2 * np.log(nvars * t ** 2 * np.pi ** 2 / (6 * 0.1)))
+                beta_known = sqrt_beta is None
+                if callable(sqrt_beta):
+                    # a user-supplied annealing schedule: documented call order schedule(t, n_vars)
+                    try:
+                        sb = float(sqrt_beta(t, nvars))
+                        beta_known = True
+                    except Exception:
+                        beta_known = False
                 ok = True
-                if sqrt_beta is None and len(preds) >= 1 and z.size:
+                if beta_known and len(preds) >= 1 and z.size:
                     mu = preds[-1][0].ravel()
                     sd = np.sqrt(preds[-1][1].ravel())
                     want = mu - sb * sd
                     ok = bool(want.shape == z.shape and np.allclose(z, want, rtol=1e-9, atol=1e-12, equal_nan=True))
-                elif sqrt_beta is None and z.size:
+                elif beta_known and z.size:
                     ok = False
                 site = "es" if where == "es" else rec.site()
                 ev = rec.emit("Acq", site=site, n=int(z.size), fc_arg=int(func_count), fc_true=fc_true,
-                              lcb_ok=ok, default_beta=sqrt_beta is None,
+                              lcb_ok=ok, default_beta=bool(beta_known),
                               zmin=float(np.min(z)) if z.size and np.all(np.isfinite(z)) else None,
                               argmin=int(np.argmin(z)) if z.size else -1)
                 if rec.es_ctx is not None and where == "es":
